@@ -294,7 +294,7 @@ def check_discrete(case, ctx=None):
     violated, infos = stats.two_stage(stage_smc, n1)
     _count(ctx, "smc-tests", infos)
     if violated:
-        _bad(K_KEYREUSE if (change and cr.F and K == 2) else "evidence-or-proposal", f"particle frequencies / E[exp(lml)] = Z contradicted at both stages: {infos}; {desc}", case)
+        _bad(K_KEYREUSE if (change and cr.F and K >= 2) else "evidence-or-proposal", f"particle frequencies / E[exp(lml)] = Z contradicted at both stages: {infos}; {desc}", case)
 
     # ---- B. random_weighted -----------------------------------------------------------------
     f_rw = jax.jit(jax.vmap(lambda k: alg.random_weighted(k, target2)))
@@ -341,7 +341,7 @@ def check_discrete(case, ctx=None):
     violated, infos = stats.two_stage(stage_rw, n1)
     _count(ctx, "rw-tests", infos)
     if violated:
-        _bad(K_KEYREUSE if (change and cr.F and K == 2) else "rw-law", f"random_weighted output differs from the exact sampling-importance-resampling law at both stages: {infos}; {desc}", case)
+        _bad(K_KEYREUSE if (change and cr.F and K >= 2) else "rw-law", f"random_weighted output differs from the exact sampling-importance-resampling law at both stages: {infos}; {desc}", case)
 
     # ---- C. estimate_logpdf ------------------------------------------------------------------
     if case.get("est") and not change:
@@ -682,13 +682,12 @@ def discrete_strategy(ctx, n):
         change = None
         # every fourth shard insists on a second target that drops a constrained address
         force_drop = ctx.shard % 4 == 1
-        if force_drop and k == 2 and ctx.is_open(K_KEYREUSE) and not FULL:
-            k = 3 if X**3 <= 5000 else 1
-            kind = "ImportanceK"
+        if force_drop and k >= 2 and ctx.is_open(K_KEYREUSE) and not FULL:
+            k = 1
         if force_drop or draw(st.integers(0, 2)) == 2:
-            # open finding changetarget_key_reuse: with 2 particles the choices sampled afresh by the
-            # new target are correlated with the proposed ones -> keep every constrained address
-            keep_all = k == 2 and ctx.is_open(K_KEYREUSE) and not FULL
+            # open finding changetarget_key_reuse: with >= 2 particles the choices sampled afresh by
+            # the new target are correlated with the proposed ones -> keep every constrained address
+            keep_all = k >= 2 and ctx.is_open(K_KEYREUSE) and not FULL
             dropped = draw(st.integers(0, len(obs) - 1)) if force_drop else -1
             keep = [o for j, o in enumerate(obs) if j != dropped and (keep_all or draw(st.integers(0, 3)) > 0)]
             if not keep and not force_drop and draw(st.booleans()):
@@ -696,7 +695,7 @@ def discrete_strategy(ctx, n):
             new = [[i, draw(st.integers(0, im.ncodes(spec["sites"][i]) - 1))] for i, _ in keep]
             e_size = X * int(np.prod([im.ncodes(spec["sites"][i]) for i, _ in obs if i not in [a for a, _ in new]]))
             if force_drop and kind == "ImportanceK":
-                while k > 1 and (e_size**k > 20000 or (k == 2 and ctx.is_open(K_KEYREUSE) and not FULL)):
+                while k > 1 and (e_size**k > 20000 or (ctx.is_open(K_KEYREUSE) and not FULL)):
                     k -= 1
             if e_size**k <= 20000 and new != obs:
                 change = {"obs": new}
